@@ -214,12 +214,56 @@ def setup_section(draw, ebal=True, conv_approx=False, tol=False):
 
 
 @st.composite
+def axial_regions(draw, max_regions=2):
+    """0..2 unrodded regions below / above the bundle (fractions of the core length)."""
+    n = draw(st.integers(0, max_regions))
+    regs = {}
+    lo_top = 0.0
+    hi_bot = 1.0
+    if n >= 1:
+        where = draw(st.sampled_from(["lower", "upper"])) if n == 1 else "both"
+    else:
+        where = None
+
+    def one():
+        r = {"model": draw(st.sampled_from(["simple", "6node"])),
+             "vf_coolant": r6(draw(fl(0.15, 0.9)))}
+        if draw(st.booleans()):
+            r["hydraulic_diameter"] = r6(draw(logfl(0.002, 0.05)))
+        if draw(st.booleans()):
+            r["epsilon"] = r6(draw(logfl(1e-7, 1e-4)))
+        if draw(st.booleans()):
+            r["convection_factor"] = r6(draw(fl(0.1, 1.0)))
+        return r
+    if where in ("lower", "both"):
+        lo_top = round(draw(fl(0.08, 0.4)), 3)
+        r = one()
+        r["z_lo_frac"], r["z_hi_frac"] = 0.0, lo_top
+        regs["lower"] = r
+    if where in ("upper", "both"):
+        hi_bot = round(draw(fl(0.6, 0.92)), 3)
+        r = one()
+        r["z_lo_frac"], r["z_hi_frac"] = hi_bot, 1.0
+        regs["upper"] = r
+    return regs
+
+
+@st.composite
 def single_assembly(draw, rings=(2, 5), ducts=(1, 2), coolant="const", regimes=("lam", "tra", "tur"),
                     gap_model=None, n_steps=(30, 200), conv_approx=False, tol=False, safe_corr=True,
-                    max_cells=3, comps=None, dT=(5.0, 250.0), bare=False, duct_const=True):
+                    max_cells=3, comps=None, dT=(5.0, 250.0), bare=False, duct_const=True,
+                    regions=False, lowfi=False):
     """One assembly in a one-position core.  gap_model None -> drawn from none/flow."""
     F = round(draw(fl(0.03, 0.16)), 6)
     a, meta = draw(bundle_type(F, rings, ducts, bare=bare, safe_corr=safe_corr))
+    if regions and draw(st.booleans()):
+        regs = draw(axial_regions())
+        if regs:
+            a["AxialRegion"] = regs
+    if lowfi and draw(st.integers(0, 3)) == 0:
+        a["use_low_fidelity_model"] = True
+        a["low_fidelity_model"] = draw(st.sampled_from(["simple", "6node"]))
+        a["convection_factor"] = draw(st.sampled_from(["calculate"]) | fl(0.1, 1.0).map(r6))
     spec = {"setup": draw(setup_section(conv_approx=conv_approx, tol=tol)), "materials": {}}
     if coolant == "const":
         spec["materials"]["cool_c"] = draw(const_material())
